@@ -14,6 +14,7 @@ Inductive case :=
 | CParamStmt (name expr : str) (out : option str)
     (* var.initial after the statement PARAMETER (name = expr) *)
 | CEscape (x out : str)                       (* the e filter of FORD's Jinja environment *)
+| CEscapeText (x out : str)                   (* ford.sourceform._esc *)
 | CView (x text : str) (ntags : nat)          (* an HTML parser's reading of the fragment x *)
 | CSite (key : str) (unescaped_seen : bool).  (* a probe run: did text printed at this site create markup? *)
 
@@ -38,10 +39,12 @@ Definition model_initial (prefix expr : str) : option str :=
   | None => None
   end.
 
+(* PARAMETER (name = expr): the text after the equals sign, stripped, with the literals put back
+   (_restore_strings: same loop as for initial values, NBSP substitution included) *)
 Definition model_param (name expr : str) : option str :=
   let prefix := s "parameter (" ++ name ++ s " = " in
   match mask (prefix ++ expr ++ s ")") with
-  | Some (m, _) => Some (space :: removelast (skipn (length prefix) m))
+  | Some (m, strs) => unmask_in (nbsp_sub nb) strs (strip (removelast (skipn (length prefix) m)))
   | None => None
   end.
 
@@ -61,13 +64,15 @@ Definition judge (k : case) : nat :=
   | CParamStmt name expr out =>
       verdict (negb (opt_str_eqb (model_param name expr) out))
               (match out with
-               | Some o => negb (str_eqb (squash o) (squash expr))
+               | Some o => negb (str_eqb (squash (un_nbsp nb o)) (squash expr))
                | None => true
-               end)
-              (if has_quote expr then 1 else 0)
+               end) 0
   | CEscape x out =>
       verdict (negb (str_eqb (html_escape x) out))
               (negb (no_markup out) || negb (str_eqb (unescape out) x)) 0
+  | CEscapeText x out =>
+      verdict (negb (str_eqb (escape_text x) out))
+              (negb (pair_eqb str_eqb Nat.eqb (render_text out) (x, 0))) 0
   | CView x text ntags =>
       verdict (negb (pair_eqb str_eqb Nat.eqb (render_text x) (text, ntags))) false 0
   | CSite key seen =>
